@@ -28,7 +28,7 @@ def model_check(ctx):
     ctx.assumptions += [
         "circular brushes circular_brush(d), d in {1, 2, 2.5, 3, 4, 5}; the offsets TLC uses are read from the array the implementation built",
         "design values are integers (only their order and sign enter the algorithm), so float64 comparisons are exact",
-        "termination is observed as the call returning; a hang would surface as a harness timeout, not as a verdict",
+        "termination is observed as the call returning: every batch / eager call runs under a watchdog (C25_TIMEOUT, default 180 s, normal run time < 5 s); a call that does not return yields the verdict 'termination: ...'",
     ]
 
 
@@ -176,30 +176,114 @@ def classify(record, verdict):
     return "drift" if verdict.startswith("drift:") else "violation"
 
 
-def run(ctx):
-    from concurrent.futures import ThreadPoolExecutor
+TIMEOUT = float(__import__("os").environ.get("C25_TIMEOUT", "180"))  # seconds per batch / eager call (normal: < 5 s)
 
-    model_check(ctx)
-    cases = list(gen_cases(ctx))
+
+def _timeout_record(cid, cases):
+    """stands for a call (or batch of calls) of the real transform that did not return within TIMEOUT"""
+    c0 = cases[0]
+    return {"id": cid, "returned": 0, "dm": c0["dm"], "brush": [[0, 0]], "bg": c0["bg"], "arr": [], "out": [], "dev": 0, "model": 0,
+            "family": "timeout", "d": str(c0["d"]), "ncases": len(cases)}  # fmt: skip
+
+
+def _guarded(jobs, parallel):
+    """Run jobs {key: (fn, arg)} in daemon threads, at most `parallel` at a time, each under the watchdog TIMEOUT
+    (counted from the moment the job starts computing).  Returns (results by key, set of timed-out keys).  After
+    the first timeout no further job is started (non-termination is established; a hung JAX while-loop cannot be
+    cancelled, it only loses its slot)."""
+    import threading
+    import time
+
+    sem = threading.Semaphore(parallel)
+    results, started, timed_out, stop = {}, {}, set(), threading.Event()
+
+    def work(k, fn, arg):
+        sem.acquire()
+        if stop.is_set():
+            results[k] = None
+            sem.release()
+            return
+        started[k] = time.time()
+        try:
+            results[k] = fn(arg)
+        except BaseException as ex:  # re-raised in the main thread
+            results[k] = ex
+        if k not in timed_out:
+            sem.release()
+
+    for k, (fn, arg) in jobs.items():
+        threading.Thread(target=work, args=(k, fn, arg), daemon=True).start()
+    while len(results) + len([k for k in timed_out if k not in results]) < len(jobs):
+        time.sleep(0.2)
+        now = time.time()
+        for k, t0 in list(started.items()):
+            if k not in results and k not in timed_out and now - t0 > TIMEOUT:
+                timed_out.add(k)
+                stop.set()
+                sem.release()  # the hung job never gives its slot back
+    for k, r in list(results.items()):
+        if isinstance(r, BaseException):
+            raise r
+    return {k: r for k, r in list(results.items()) if k not in timed_out}, timed_out
+
+
+def _finish_after_timeout(ctx):
+    """a hung JAX computation keeps the interpreter from exiting: write the evidence and leave hard"""
+    import os
+    import sys
+
+    rc = ctx.finish()
+    sys.stdout.flush()
+    sys.stderr.flush()
+    os._exit(rc)
+
+
+def run(ctx, only=None):
+    model_check(ctx) if only is None else None
+    cases = list(gen_cases(ctx)) if only is None else only
     groups = {}
     for c in cases:
         groups.setdefault(gkey(c), []).append(c)
-    with ThreadPoolExecutor(max_workers=PARALLEL) as ex:
-        recs = [r for rs in ex.map(observe_batch, groups.values()) for r in rs]
-    rng = random.Random(ctx.seed + 1)
+    res, hung = _guarded({k: (observe_batch, g) for k, g in groups.items()}, PARALLEL)
+    recs = [r for k in groups if res.get(k) for r in res[k]]
     inputs = {c["id"]: c for c in cases}
-    for c in rng.sample(cases, min(len(cases), 30 if ctx.quick else 300)):  # eager re-runs, no jit / vmap
-        e = dict(c, id=c["id"] + "-eager")
-        inputs[e["id"]] = e
-        recs.append(observe(e))
-    for r in recs[:1] + recs[-1:]:
+    for k in hung:
+        cid = "timeout-" + "-".join(str(x) for x in k)
+        recs.append(_timeout_record(cid, groups[k]))
+        inputs[cid] = {"batch": groups[k]}
+    if not hung and only is None:
+        rng = random.Random(ctx.seed + 1)
+        eager = {}
+        for c in rng.sample(cases, min(len(cases), 30 if ctx.quick else 300)):  # eager re-runs, no jit / vmap
+            e = dict(c, id=c["id"] + "-eager")
+            inputs[e["id"]] = e
+            eager[e["id"]] = (observe, e)
+        res2, hung2 = _guarded(eager, 1)
+        recs += [res2[k] for k in eager if res2.get(k)]
+        for k in hung2:
+            recs.append(_timeout_record("timeout-" + k, [inputs[k]]))
+            inputs["timeout-" + k] = {"batch": [inputs[k]]}
+        hung = hung2
+    for r in recs:
+        r.setdefault("returned", 1)
+    ok = [r for r in recs if r["returned"] == 1]
+    for r in ok[:1] + ok[-1:]:
         ctx.sample({k: r[k] for k in ("id", "dm", "brush", "bg", "arr", "out")})
-    ctx.nontrivial = sum(1 for r in recs if 0 < sum(r["out"]) < len(r["out"]))
+    ctx.nontrivial = sum(1 for r in ok if 0 < sum(r["out"]) < len(r["out"]))
     fam = {}
     for r in recs:
         fam[r["family"] + "/d" + r["d"]] = fam.get(r["family"] + "/d" + r["d"], 0) + 1
     ctx.extra_cov["cases_by_family_and_diameter"] = fam
+    ctx.extra_cov["watchdog_timeout_s"] = TIMEOUT
     ctx.validate(*TRACE, recs, inputs, classify=classify, chunk=CHUNK)
+    if hung:
+        ctx.notes.append("a call of BrushConstraint2D did not return within the watchdog limit; remaining batches were not started")
+        _finish_after_timeout(ctx)
+
+
+def replay(ctx, inp):
+    """--replay: a stored case, or the batch behind a timeout record, again under the watchdog"""
+    run(ctx, only=inp["batch"] if "batch" in inp else [inp])
 
 
 def gkey(c):
